@@ -144,7 +144,9 @@ def generate(repo, outdir, drivers_dir):
     copy(S + "write_manager/write_behind.rs", "write_behind.rs", driver="write_behind_driver.rs",
          subs=[("    collections::{BinaryHeap, HashMap},\n", ""),
                ("use fxhash::FxBuildHasher;", "use fxhash::FxBuildHasher;\nuse crate::shim::{BinaryHeap, HashMap};"),
-               ("std::collections::hash_map::Entry::", "crate::shim::hash_map::Entry::")])
+               ("std::collections::hash_map::Entry::", "crate::shim::hash_map::Entry::"),
+               ("    processed_logical_batch: Vec<WriteBatch<Db>>,", "    processed_logical_batch: crate::shim::SVec<WriteBatch<Db>>,"),
+               ("            processed_logical_batch: Vec::new(),", "            processed_logical_batch: Default::default(),")])
     # --- admission policy (C16); std HashMap -> shim with the same API (documented stub)
     copy(S + "tiny_lfu/lru.rs", "lru.rs",
          subs=[("use std::{collections::HashMap, ptr::NonNull};", "use std::ptr::NonNull;\nuse crate::shim::HashMap;")],
